@@ -104,12 +104,14 @@ type Resp struct {
 	Trailer http.Header
 	Body    []byte
 	Close   bool
+	Raw     []byte // the bytes read off the wire for this response (diagnostics)
 }
 
 // Conn is a raw keep-alive client connection.
 type Conn struct {
-	c  net.Conn
-	br *bufio.Reader
+	c   net.Conn
+	br  *bufio.Reader
+	raw bytes.Buffer
 }
 
 func Dial(addr string) (*Conn, error) {
@@ -117,7 +119,9 @@ func Dial(addr string) (*Conn, error) {
 	if err != nil {
 		return nil, err
 	}
-	return &Conn{c: c, br: bufio.NewReader(c)}, nil
+	cn := &Conn{c: c}
+	cn.br = bufio.NewReader(io.TeeReader(c, &cn.raw))
+	return cn, nil
 }
 
 func (c *Conn) Close() { c.c.Close() }
@@ -142,7 +146,9 @@ func (c *Conn) Read(method string) (*Resp, error) {
 	if err != nil {
 		return nil, fmt.Errorf("reading body: %v", err)
 	}
-	return &Resp{Status: resp.StatusCode, Proto: resp.Proto, Header: resp.Header, Trailer: resp.Trailer, Body: body, Close: resp.Close}, nil
+	raw := append([]byte(nil), c.raw.Bytes()...)
+	c.raw.Reset()
+	return &Resp{Status: resp.StatusCode, Proto: resp.Proto, Header: resp.Header, Trailer: resp.Trailer, Body: body, Close: resp.Close, Raw: raw}, nil
 }
 
 // Request builds a minimal raw HTTP/1.1 request.
